@@ -37,6 +37,10 @@ def run_history(case):
     with k.installed():
         link = sk.Link(k)
         pool = [[10], [20, 21], [30, 31, 32]]
+        if case.get("variant") == "inspect":
+            # one fresh class per object: the holder must ask for each class's description (nested HANDLE_INSPECT) the first
+            # time a reference arrives, and dispatches whatever else is delivered while it waits
+            pool = [type("K%d" % i, (object,), {"__len__": (lambda n: lambda self: n)(i + 5)})() for i in range(2)] + [[30, 31, 32]]
 
         class Holder(rpyc.Service):
             def __init__(self):
@@ -105,6 +109,36 @@ def run_history(case):
         def packets_to_a():
             return _count_packets(link.a.held) + _count_packets(link.a.inbox)
 
+        pending_del = {}           # object index -> notices in flight
+        busy = {"step": False, "done": False, "pumped": 0}
+
+        def sync_books():
+            """packets written as a side effect (replies, nested requests) carry no pool reference / are no release notice"""
+            while len(in_flight_refs) < packets_to_b():
+                in_flight_refs.append(None)
+            while len(notices) < packets_to_a():
+                notices.append(None)
+
+        def pump():
+            # runs only when virtual time advances, i.e. when the driver is blocked inside a step (the holder is waiting for
+            # a class description): deliver FIFO, towards the owner first, one packet per turn
+            while not busy["done"]:
+                k.sleep(0.01)
+                if not busy["step"]:
+                    continue
+                sync_books()
+                if link.a.release_packet():
+                    n = notices.pop(0) if notices else None
+                    if n:
+                        pending_del[n[1]] -= 1
+                    A.serve(0)
+                    sync_books()
+                    busy["pumped"] += 1
+                elif link.b.release_packet():
+                    if in_flight_refs:
+                        in_flight_refs.pop(0)
+                    busy["pumped"] += 1
+
         def check(tag):
             table = A._local_objects._dict
             held_by_b = set(kk for kk, _ in holder.slots)
@@ -125,9 +159,10 @@ def run_history(case):
         def driver():
             atake = rpyc.async_(take)
             aback = rpyc.async_(back)
-            pending_del = {}       # object index -> notices in flight
+            busy["step"] = True
             for stp in steps:
                 op = stp[0]
+                sync_books()
                 if op == "send":
                     kk, shape = stp[1] % len(pool), stp[2]
                     o = pool[kk]
@@ -194,6 +229,7 @@ def run_history(case):
                             notices.append(None)
                 elif op == "gc":
                     gc.collect()
+                sync_books()
                 check(op)
                 if problems:
                     return
@@ -248,6 +284,7 @@ def run_history(case):
             r = rpyc.async_(take)((0,), pool[0])
             link.b.release_packet()
             B.serve(0)
+            busy["step"] = False
             A.close()
             while link.b.release_packet():
                 try:
@@ -264,8 +301,17 @@ def run_history(case):
                 if conn._proxy_cache._dict and name == "owner":
                     problems.append(("I4-close", "%s's proxy cache not empty after close" % name, len(conn._proxy_cache._dict)))
 
-        td = k.spawn(driver, name="driver")
+        def driver_then_stop():
+            try:
+                driver()
+            finally:
+                busy["done"] = True
+
+        td = k.spawn(driver_then_stop, name="driver")
+        k.spawn(pump, name="pump", daemon=True)
         k.run()
+        busy["done"] = True
+        stats["pumped"] = busy["pumped"]
         if td.exc is not None:
             problems.append(("driver-raised", type(td.exc).__name__, td.exc_tb[-400:]))
         if k.deadlock:
@@ -304,6 +350,11 @@ def check(case, rec):
         classes.append("crossing")
     if any(s[0] == "send" and s[2] == "twice" for s in case["steps"]):
         classes.append("repeated-in-one-tuple")
+    if case.get("variant") == "inspect":
+        classes.append("inspect-variant")
+        if stats.get("pumped"):
+            classes.append("nested-dispatch-while-waiting-for-class-description")
+    rec.count("forced_deliveries", stats.get("pumped", 0))
     rec.case(case, stats["crossings"] > 0, classes)
     rec.count("crossings", stats["crossings"])
     return [Failure(cl, key, case, det) for cl, key, det in problems[:3]]
@@ -372,6 +423,9 @@ def dfs_race(case, bound, rec):
         for f in rec.triage([Failure(cl, key, full, det) for cl, key, det in problems[:2]]):
             rec.violation(f)
         n += 1
+        if rec.failures and n > 50:          # a broken tree: the verdict is known, do not enumerate every failing schedule
+            rec.count("dfs stopped early after violations")
+            break
         prefix = ch.next_prefix()
     return n
 
@@ -387,8 +441,18 @@ def cases():
                       st.sampled_from(["alone", "twice", "kw"]), st.lists(step, max_size=6)).map(
         lambda t: [["send", t[0], t[1]], ["to_holder"], ["drop", 0]] + ([["drop", 0]] if t[1] == "twice" else []) +
         [["send", t[0], t[2]]] + t[3])
-    return st.fixed_dictionaries({"steps": st.one_of(st.lists(step, min_size=2, max_size=30),
-                                                     st.tuples(st.lists(step, max_size=8), cross).map(lambda t: t[0] + t[1]))})
+    # constructive nesting (inspect variant): two references to one object in flight, so that the second is dispatched while the
+    # holder waits for the class description of the first; then a release crossing a third reference
+    nest = st.tuples(st.integers(0, 1), st.sampled_from(["alone", "kw", "nested"]), st.integers(0, 3), st.lists(step, max_size=6)).map(
+        lambda t: [["send", t[0], "alone"], ["send", t[0], t[1]], ["to_holder"], ["to_holder"], ["send", t[0], "alone"],
+                   ["drop", 0], ["drop", 0]] + [["to_owner"]] * t[2] + [["to_holder"], ["use", 0]] + t[3])
+    lists_only = st.fixed_dictionaries({"steps": st.one_of(st.lists(step, min_size=2, max_size=30),
+                                                          st.tuples(st.lists(step, max_size=8), cross).map(lambda t: t[0] + t[1]))})
+    inspect = st.fixed_dictionaries({"variant": st.just("inspect"),
+                                     "steps": st.one_of(st.lists(step, min_size=2, max_size=30),
+                                                        st.tuples(st.lists(step, max_size=8), cross).map(lambda t: t[0] + t[1]),
+                                                        st.tuples(st.lists(step, max_size=4), nest).map(lambda t: t[0] + t[1]))})
+    return st.one_of(lists_only, lists_only, inspect)
 
 
 def plan(tier, scale):
